@@ -62,6 +62,69 @@ def implied(target, premises):
     return False
 
 
+# role of each parameter of the compiled find_best_split, confirmed by reading its docstring and body; the accepted argument
+# expressions of Kauri.fit for that role (canonical source forms)
+SPLIT_ROLES = {
+    "kernel": ("the kernel of the training data", ["kernel"]),
+    "X": ("the validated data", ["X"]),
+    "leaves_to_explore": ("the worklist", ["np.array(leaves_to_explore)", "np.asarray(leaves_to_explore)", "leaves_to_explore"]),
+    "Y": ("cluster membership of leaves", ["Y"]),
+    "Z": ("leaf membership of samples", ["Z"]),
+    "n_clusters": ("current number of clusters", ["n_clusters"]),
+    "K_max": ("max_clusters", ["self.max_clusters"]),
+    "n_leaves": ("current number of leaves", ["n_leaves"]),
+    "min_leaf": ("min_samples_leaf", ["self.min_samples_leaf"]),
+    "feature_subset": ("random feature subset", None),
+}
+
+
+def split_call_wiring(pm, ctx, ku, pu, fit):
+    f = pu.func("find_best_split")
+    params = func_params(f)
+    calls = [n for n in ast.walk(fit) if isinstance(n, ast.Call) and call_name(n) == "find_best_split"]
+    if not calls:
+        raise AnalysisError("anchor vanished: find_best_split call in Kauri.fit")
+    c = calls[0]
+    if any(isinstance(a, ast.Starred) for a in c.args):
+        ctx.unrecognised("C09-g", "Kauri.fit: find_best_split(...)", "starred arguments")
+        return
+    bound = {}
+    for i, a in enumerate(c.args):
+        if i < len(params):
+            bound[params[i]] = a
+    for k in c.keywords:
+        if k.arg:
+            bound[k.arg] = k.value
+    for p_ in params:
+        site = f"Kauri.fit: find_best_split({p_}=...)"
+        role = SPLIT_ROLES.get(p_)
+        if role is None:
+            ctx.unrecognised("C09-g", site, f"parameter {p_} of find_best_split has no recorded role")
+            continue
+        if p_ not in bound:
+            ctx.violation("C09-g", ku.relpath, "Kauri.fit", "find_best_split(...)", f"no argument for {p_} ({role[0]})", line=c.lineno, site=site)
+            continue
+        a = bound[p_]
+        src = norm_src(a)
+        if role[1] is None:
+            # feature subset: drawn from the seeded generator over the feature axis, without replacement
+            ok = "random_state" in src and "X.shape[1]" in src and "replace=False" in src.replace(" ", "")
+            if ok:
+                ctx.ok("C09-g", site, role[0])
+            elif isinstance(a, (ast.Name, ast.Attribute)):
+                ctx.unrecognised("C09-g", site, f"feature subset given as {src}")
+            else:
+                ctx.unrecognised("C09-g", site, f"feature subset expression {src[:60]}")
+            continue
+        if src in role[1]:
+            ctx.ok("C09-g", site, role[0])
+        elif isinstance(a, (ast.Name, ast.Attribute)) or (isinstance(a, ast.Call) and len(a.args) == 1 and isinstance(a.args[0], (ast.Name, ast.Attribute))):
+            ctx.violation("C09-g", ku.relpath, "Kauri.fit", f"find_best_split({p_}={src})", f"the parameter {p_} of find_best_split stands for {role[0]} but receives `{src}`",
+                          line=a.lineno, site=site)
+        else:
+            ctx.unrecognised("C09-g", site, f"argument `{src[:60]}` for {p_}")
+
+
 def run(pm, ctx):
     ku = pm.unit("gemclus.tree.kauri")
     pu = pm.unit("gemclus.tree._utils")
@@ -72,6 +135,9 @@ def run(pm, ctx):
     ctx.rule("C09-d", "thresholds are observed feature values separating two different values", floor=2)
     ctx.rule("C09-e", "the array encoding of the tree stays consistent (2*leaves-1 nodes, ids of the children)", floor=8)
     ctx.rule("C09-f", "predict must route with the comparator used to build the partition; score is the objective of predict", floor=4)
+
+    ctx.rule("C09-g", "every limit and every state matrix reaches the parameter of find_best_split that stands for it", floor=10)
+    split_call_wiring(pm, ctx, ku, pu, fit)
 
     # ------------------------------------------------------------------ a
     inserts = []
